@@ -35,7 +35,7 @@ func ltsPrologue(rng *vrng) (ops []string, written int) {
 
 func genC03Script(rng *vrng) string {
 	ops, written := ltsPrologue(rng)
-	var outstanding, cancelled, completed []int
+	var outstanding, cancelled, completed, nowaits []int
 	next := 1
 	tok := 1
 	pick := func(l []int) (int, []int) {
@@ -45,7 +45,20 @@ func genC03Script(rng *vrng) string {
 	}
 	steps := 3 + rng.intn(14)
 	for s := 0; s < steps; s++ {
-		switch k := rng.intn(10); {
+		switch k := rng.intn(12); {
+		case k >= 10:
+			// fire-and-forget message: it takes an ID of its own from the same sequence; what the reader says about it
+			// later (an ErrorMessage or a response carrying that ID) belongs to no caller
+			c := next
+			next++
+			typ := c03Req[rng.intn(len(c03Req))]
+			written++
+			ops = append(ops, fmt.Sprintf("nw:%d:%d:%d", c, typ, 1000+c), fmt.Sprintf("w:%d", written), fmt.Sprintf("r:%d", c))
+			nowaits = append(nowaits, c)
+			if rng.intn(2) == 0 {
+				ops = append(ops, fmt.Sprintf("ps:%d:@%d:%d", []int{100, 12, 11}[rng.intn(3)], c, tok))
+				tok++
+			}
 		case k < 3 || len(outstanding) == 0:
 			if len(outstanding) >= 6 {
 				continue
@@ -80,12 +93,26 @@ func genC03Script(rng *vrng) string {
 		case k < 9:
 			var c int
 			c, outstanding = pick(outstanding)
+			if rng.intn(3) == 0 && len(outstanding) < 5 {
+				// the caller gives up while its reply is half-way in; a new request is issued before the rest arrives
+				d := next
+				next++
+				written++
+				ops = append(ops, fmt.Sprintf("pspart:%d:12:@%d:%d", 10+rng.intn(8), c, tok), fmt.Sprintf("cancel:%d", c), fmt.Sprintf("r:%d", c),
+					fmt.Sprintf("call:%d:2:%d", d, 1000+d), fmt.Sprintf("w:%d", written), "psrest")
+				tok++
+				outstanding = append(outstanding, d)
+				cancelled = append(cancelled, c)
+				continue
+			}
 			ops = append(ops, fmt.Sprintf("cancel:%d", c), fmt.Sprintf("r:%d", c))
 			cancelled = append(cancelled, c)
 		default:
 			// a reply nobody waits for: id of a cancelled or completed caller, or an id never used
 			id := "7777"
-			if len(cancelled) > 0 && rng.intn(2) == 0 {
+			if len(nowaits) > 0 && rng.intn(3) == 0 {
+				id = fmt.Sprintf("@%d", nowaits[rng.intn(len(nowaits))])
+			} else if len(cancelled) > 0 && rng.intn(2) == 0 {
 				id = fmt.Sprintf("@%d", cancelled[rng.intn(len(cancelled))])
 			} else if len(completed) > 0 && rng.intn(2) == 0 {
 				id = fmt.Sprintf("@%d", completed[rng.intn(len(completed))])
@@ -118,6 +145,15 @@ var c03Fixed = []string{
 	"new:0 start pf:63:0:1:0 call:1:2:1001 w:1 ps:12:@1:5 r:1 ps:12:@1:6 call:2:2:1002 w:2 ps:12:@2:7 r:2 close pc rc",
 	"new:0 start pf:63:0:1:0 call:1:2:1001 w:1 cancel:1 r:1 ps:12:@1:5 call:2:2:1002 w:2 ps:12:@2:7 r:2 close pc rc",
 	"new:1 start pf:63:0:1:0 w:1 ps:62:0:3 w:2 ps:100:0:110 call:1:2:1001 w:3 ps:12:@1:6 r:1 close pc rc",
+	// a caller gives up while its reply is half-way in (the read loop has taken its entry and is reading the payload),
+	// another request is issued, then the rest of the first reply and the second reply arrive
+	"new:0 start pf:63:0:1:0 call:1:2:1001 w:1 pspart:11:12:@1:5 cancel:1 r:1 call:2:2:1002 w:2 psrest ps:12:@2:6 r:2 close pc rc",
+	"new:0 start pf:63:0:1:0 call:1:2:1001 w:1 pspart:10:12:@1:5 cancel:1 r:1 call:2:3:1002 w:2 call:3:2:1003 w:3 psrest ps:13:@2:6 r:2 ps:12:@3:7 r:3 close pc rc",
+	"new:0 start pf:63:0:1:0 call:1:2:1001 w:1 call:2:2:1002 w:2 pspart:17:12:@1:5 cancel:1 r:1 cancel:2 r:2 call:3:2:1003 w:3 call:4:2:1004 w:4 psrest ps:12:@4:6 r:4 ps:12:@3:7 r:3 close pc rc",
+	"new:0 start pf:63:0:1:0 call:1:2:1001 w:1 pspart:14:12:@1:5 call:2:2:1002 w:2 psrest r:1 ps:12:@2:6 r:2 close pc rc",
+	// a fire-and-forget message between requests: its ID is its own; an error about it goes to no caller
+	"new:0 start pf:63:0:1:0 call:1:2:1001 w:1 nw:2:2:1002 w:2 r:2 ps:100:@2:5 ps:12:@1:6 r:1 close pc rc",
+	"new:0 start pf:63:0:1:0 nw:1:2:1001 w:1 r:1 call:2:2:1002 w:2 ps:12:@1:5 ps:12:@2:6 r:2 nw:3:3:1003 w:3 r:3 call:4:2:1004 w:4 ps:12:@3:7 ps:12:@4:8 r:4 close pc rc",
 }
 
 func TestVerifC03(t *testing.T) {
